@@ -570,3 +570,95 @@ func BuildDirTIFF(es []AEntry, bind map[int]*Bound, order string, ifdAt int) []b
 	bo.PutUint32(buf[p:], 0)
 	return buf
 }
+
+// BuildFullTIFF writes a TIFF block that carries EVERY tag of the catalog (all directories, all
+// encoding classes, one entry per tag id), in a simple forward layout: IFD0, its values, the Exif
+// directory, its values, the GPS directory, its values. Used as the base of fault injection so that
+// every value parser of the library is reached.
+func BuildFullTIFF(rng *rand.Rand, order string) []byte {
+	var bo binary.ByteOrder = binary.LittleEndian
+	if order == "BE" {
+		bo = binary.BigEndian
+	}
+	type ent struct {
+		id  uint16
+		val LVal
+	}
+	dirs := map[string][]ent{}
+	sizes := map[string]int{"ascii": 9, "date": 20, "date11": 11, "zone": 7, "subsec": 7, "rat": 8, "srat": 8, "rat3": 24, "rat4": 32}
+	for _, d := range []string{"IFD0", "Exif", "GPS"} {
+		seen := map[uint16]bool{}
+		var classes []string
+		for c := range catalog[d] {
+			classes = append(classes, c)
+		}
+		sortStrings(classes)
+		for _, c := range classes {
+			for _, s := range catalog[d][c] {
+				if seen[s.id] {
+					continue
+				}
+				seen[s.id] = true
+				sz := sizes[c]
+				if sz == 0 {
+					sz = 4
+				}
+				v, _ := s.gen(rng, sz)
+				dirs[d] = append(dirs[d], ent{s.id, v})
+			}
+		}
+	}
+	dirs["IFD0"] = append(dirs["IFD0"], ent{0x8769, LVal{Typ: tLong, Longs: []uint32{0}}}, ent{0x8825, LVal{Typ: tLong, Longs: []uint32{0}}})
+	dirSize := func(d string) int {
+		n := 2 + 12*len(dirs[d]) + 4
+		for _, e := range dirs[d] {
+			if e.val.Size() > 4 {
+				n += e.val.Size()
+			}
+		}
+		return n
+	}
+	at := map[string]int{"IFD0": 8}
+	at["Exif"] = at["IFD0"] + dirSize("IFD0")
+	at["GPS"] = at["Exif"] + dirSize("Exif")
+	buf := make([]byte, at["GPS"]+dirSize("GPS"))
+	if order == "BE" {
+		copy(buf, "MM\x00\x2a")
+	} else {
+		copy(buf, "II\x2a\x00")
+	}
+	bo.PutUint32(buf[4:], 8)
+	for _, d := range []string{"IFD0", "Exif", "GPS"} {
+		p := at[d]
+		bo.PutUint16(buf[p:], uint16(len(dirs[d])))
+		vp := p + 2 + 12*len(dirs[d]) + 4
+		p += 2
+		for _, e := range dirs[d] {
+			bo.PutUint16(buf[p:], e.id)
+			bo.PutUint16(buf[p+2:], e.val.Typ)
+			bo.PutUint32(buf[p+4:], e.val.Count())
+			switch {
+			case e.id == 0x8769:
+				bo.PutUint32(buf[p+8:], uint32(at["Exif"]))
+			case e.id == 0x8825:
+				bo.PutUint32(buf[p+8:], uint32(at["GPS"]))
+			case e.val.Size() <= 4:
+				copy(buf[p+8:p+12], e.val.Encode(bo))
+			default:
+				bo.PutUint32(buf[p+8:], uint32(vp))
+				copy(buf[vp:], e.val.Encode(bo))
+				vp += e.val.Size()
+			}
+			p += 12
+		}
+	}
+	return buf
+}
+
+func sortStrings(s []string) {
+	for i := 1; i < len(s); i++ {
+		for j := i; j > 0 && s[j] < s[j-1]; j-- {
+			s[j], s[j-1] = s[j-1], s[j]
+		}
+	}
+}
